@@ -5,7 +5,7 @@ From Coq Require Import List Bool ZArith Lia.
 From Otto Require Import C01.Sem C01.Wf C01.Lang C01.Proofs.
 Import ListNotations.
 
-Notation exec_o := (exec_o eval truthy tick recatch).
+Notation exec_o := (exec_o eval truthy tick recatch val_seq).
 Notation st3 := (state * list label * ores val)%type.
 
 Definition ext3 (s : state) (r : st3) : Prop := extends s (fst (fst r)).
@@ -139,6 +139,14 @@ Proof.
 Qed.
 End Iter.
 
+Lemma find_case_extends cs v : forall s i, extends s (fst (find_case eval val_seq cs v s i)).
+Proof.
+  induction cs as [|[[e|] b] cs IH]; intros s i; cbn [find_case fst]; [apply extends_refl| |apply IH].
+  pose proof (eval_extends e s) as H1.
+  destruct (eval s e) as [s' [w|x]]; cbn [fst] in *; [|exact H1].
+  destruct (val_seq v w); cbn [fst]; [exact H1|]. eapply extends_trans; [exact H1|]. apply IH.
+Qed.
+
 Lemma exec_extends : forall fuel s L x, ext3 s (exec_o fuel s L x).
 Proof.
   induction fuel as [|fuel IH]; intros s L x; [apply extends_refl|].
@@ -146,7 +154,7 @@ Proof.
   pose proof (tick_extends s) as Ht. destruct (tick s) as [s0 [h|]]; cbn [fst] in *; [exact Ht|].
   assert (Hblk : forall s1 L1 l, extends s1 (fst (fst (oblock (exec_o fuel) s1 L1 l)))).
   { intros. apply (oblock_extends _ IH). }
-  destruct x as [e|l|e s1 s2|e body|body e|init test upd body|l|l|e|l x|e|b c f].
+  destruct x as [e|l|e s1 s2|e body|body e|init test upd body|l|l|e|l x|e|b c f|e cases].
   - pose proof (eval_extends e s0) as H. destruct (eval s0 e) as [s1 [v|x]]; cbn [fst] in *; eapply extends_trans; eassumption.
   - eapply extends_trans; [exact Ht|]. apply Hblk.
   - pose proof (eval_extends e s0) as H. destruct (eval s0 e) as [s' [v|x]]; cbn [fst] in *; [|eapply extends_trans; eassumption].
@@ -189,4 +197,13 @@ Proof.
          assert (H23 : extends s0 s3) by (eapply extends_trans; eassumption);
          destruct r3 as [o3|v3|]; cbn [fst]; try exact H23; destruct (is_res o3); exact H23).
     + destruct r2; exact H2.
+  - (* switch *)
+    pose proof (eval_extends e s0) as H1.
+    destruct (eval s0 e) as [s1 [v|x]]; cbn [fst] in *; [|eapply extends_trans; eassumption].
+    pose proof (find_case_extends cases v s1 0) as H2.
+    destruct (find_case eval val_seq cases v s1 0) as [s2 [r|x]]; cbn [fst] in *;
+      [|eapply extends_trans; [exact Ht|]; eapply extends_trans; eassumption].
+    assert (H02 : extends s s2) by (eapply extends_trans; [exact Ht|]; eapply extends_trans; eassumption).
+    destruct (switch_target cases r) as [i|]; cbn [fst]; [|exact H02].
+    eapply extends_trans; [exact H02|]. apply Hblk.
 Qed.
